@@ -874,3 +874,13 @@ PROPS["C14"]["outside"] = ("commit_overlay_into_root_store; commits touching sev
 PROPS["C14"]["assumptions"] += ["the root database's listing from a cursor yields exactly its entries with key >= cursor, sorted "
                                 "(the SubstateDatabase contract); BTreeMap::range / iter yield the selected entries sorted (std)",
                                 "sort keys are modelled as one byte; node keys as one byte (the code only compares them)"]
+
+PROPS["C06"]["functions"].append("SystemLoanFeeReserve::{consume_royalty, consume_royalty_internal, revert_royalty} (royalty "
+                                 "breakdown as a bounded slot-array map)")
+PROPS["C06"]["bounds"] += ("; royalties: one consume_royalty / revert_royalty step from an arbitrary reserve whose breakdown holds "
+                           "<= 2 recipients (one slot kept free) with entries in [1 atto, 10^40] adding up to the committed royalty "
+                           "cost; any XRD / USD / free amount in [0, 10^40], any recipient (package or component, 6 vault ids)")
+PROPS["C06"]["outside"] = PROPS["C06"]["outside"].replace("deferred storage in repay_all, consume_royalty / consume_storage", "deferred storage in repay_all, consume_storage")
+PROPS["C06"]["assumptions"] = PROPS["C06"].get("assumptions", []) + [
+    "royalties: the breakdown map behaves as a dictionary (slot-array model); recipients are compared by kind and vault id (the "
+    "address component is fixed per kind); negative royalty amounts are excluded (the code panics on them by contract)"]
